@@ -467,6 +467,86 @@ def directed_aliasing(ctx):
                                   how=name, container_after=repr(c)[:200], before=repr(before)[:400], after=repr(after)[:400])
 
 
+def directed_fault_then_repeat(ctx):
+    """an operation that succeeds; the same operation failing half-way on the SAME (temporarily broken) container object;
+    the container repaired in place; the first operation repeated — results must agree (anything remembered about the
+    unfinished call, keyed by identity or otherwise, shows up here). Also: an unrelated equal container afterwards."""
+    from .. import hostile
+    from ..gen_value import Opaque
+    from d42 import optional
+    from d42.utils import from_native, make_required
+
+    def obs(r):
+        return observe(r) if hasattr(r, "props") else repr(r)
+    containers = [
+        (lambda: {"a": [1, 2], "b": {"c": 1}}, lambda c: c["a"], "list"),
+        (lambda: {"a": [1, 2], "b": {"c": 1}}, lambda c: c["b"], "dict"),
+        (lambda: [[1, 2], {"k": 1}, "x"], lambda c: c[0], "list"),
+        (lambda: [[1, 2], {"k": 1}, "x"], lambda c: c[1], "dict"),
+        (lambda: {"x": {"y": {"z": [1]}}}, lambda c: c["x"]["y"]["z"], "list"),
+        (lambda: [[[[1]]]], lambda c: c[0][0][0], "list"),
+    ]
+    bads = [lambda: Opaque(), lambda: hostile.Touchy(ValueError), lambda: hostile.Touchy(KeyError), lambda: (1, 2), lambda: {1, 2},
+            lambda: ...]
+    ops = [
+        ("from_native", lambda c: from_native(c)),
+        ("schema.dict % c", lambda c: schema.dict % c),
+        ("schema.list % c", lambda c: schema.list % c),
+        ("schema.any % c", lambda c: schema.any % c),
+        ("schema.any(schema.list, schema.dict) % c", lambda c: schema.any(schema.list, schema.dict) % c),
+        ("schema.dict({...: ...}) % c", lambda c: schema.dict({...: ...}) % c),
+        ("schema.list([...]) % c", lambda c: schema.list([...]) % c),
+        ("validate(from-any, c)", lambda c: [repr(e) for e in validate(schema.any(schema.list(schema.any), schema.dict), c).get_errors()]),
+        ("schema == c", lambda c: schema.any(schema.list, schema.dict) == c),
+    ]
+    for opname, op in ops:
+        for mk, inner, kind in containers:
+            for bad in bads:
+                def break_(c, inner=inner, kind=kind, bad=bad):
+                    t = inner(c)
+                    if kind == "list":
+                        t.append(bad())
+                    else:
+                        t["__bad__"] = bad()
+
+                def repair(c, inner=inner, kind=kind):
+                    t = inner(c)
+                    if kind == "list":
+                        t.pop()
+                    else:
+                        del t["__bad__"]
+                ctx.count("fault_then_repeat")
+                try:
+                    d = hostile.fault_then_repeat(op, mk, break_, repair, obs)
+                except Exception as e:  # noqa: BLE001
+                    ctx.count("fault_then_repeat_harness_error:" + type(e).__name__)
+                    continue
+                if d is not None:
+                    ctx.violation("repeating an operation on the same (repaired) input after a failed attempt gives another "
+                                  "result", operation=opname, container=repr(mk()), **d)
+    # declarations given a caller-owned container of schemas that is temporarily broken
+    decls = [
+        ("schema.list(c)", lambda: [schema.int, schema.str], lambda c: c.append("junk"), lambda c: c.pop(), lambda c: schema.list(c)),
+        ("schema.list(c) nested", lambda: [schema.list([schema.int]), schema.str], lambda c: c.append(3), lambda c: c.pop(),
+         lambda c: schema.list(c)),
+        ("schema.dict(c)", lambda: {"a": schema.int, optional("b"): schema.str}, lambda c: c.__setitem__("z", 3),
+         lambda c: c.__delitem__("z"), lambda c: schema.dict(c)),
+        ("schema.any(*c)", lambda: [schema.int, schema.str], lambda c: c.append(3), lambda c: c.pop(), lambda c: schema.any(*c)),
+        ("make_required(d, c)", lambda: ["a"], lambda c: c.append("nope"), lambda c: c.pop(),
+         lambda c: make_required(schema.dict({optional("a"): schema.int, optional("b"): schema.str}), c)),
+    ]
+    for name, mk, br, rep, op in decls:
+        ctx.count("fault_then_repeat")
+        try:
+            d = hostile.fault_then_repeat(op, mk, br, rep, obs)
+        except Exception as e:  # noqa: BLE001
+            ctx.count("fault_then_repeat_harness_error:" + type(e).__name__)
+            continue
+        if d is not None:
+            ctx.violation("repeating an operation on the same (repaired) input after a failed attempt gives another result",
+                          operation=name, container=repr(mk()), **d)
+
+
 def model_history(ctx, rnd, n):
     """the same kind of history through the model: the pool is append-only there by construction; compare pools"""
     g = SchemaGen(rnd, max_depth=2, customs=False)
@@ -525,6 +605,7 @@ def run(ctx):
     directed_path_purity(ctx)
     directed_scale_purity(ctx)
     order_independence(ctx)
+    directed_fault_then_repeat(ctx)
     steps = ctx.n(30, 100)
     for h in range(ctx.n(25, 80)):
         H = History(ctx)
